@@ -130,14 +130,21 @@ fn perms(n: usize) -> Vec<Vec<usize>> {
     out
 }
 
-fn summary(out: &dv_core::entry::Outcome) -> (Option<dv_core::model::M>, Vec<(String, String)>) {
-    let mut reps: Vec<(String, String)> = out
+/// (value, reports the error type received, reports the returned error holds)
+fn summary(out: &dv_core::entry::Outcome) -> (Option<dv_core::model::M>, Vec<(String, String)>, Vec<(String, String)>) {
+    let all: Vec<(u32, (String, String))> = out
         .trace
         .iter()
-        .filter_map(|ev| if let Event::Report { kind, loc, .. } = ev { Some((path_str(loc), show_sorted(kind))) } else { None })
+        .filter_map(|ev| if let Event::Report { id, kind, loc, .. } = ev { Some((*id, (path_str(loc), show_sorted(kind)))) } else { None })
         .collect();
+    let mut reps: Vec<(String, String)> = all.iter().map(|x| x.1.clone()).collect();
     reps.sort();
-    (out.result.clone().ok(), reps)
+    let mut held: Vec<(String, String)> = match &out.result {
+        Ok(_) => vec![],
+        Err(ids) => ids.iter().filter_map(|i| all.iter().find(|(id, _)| id == i).map(|x| x.1.clone())).collect(),
+    };
+    held.sort();
+    (out.result.clone().ok(), reps, held)
 }
 
 /// report content, with payload-derived `actual` values rendered order-insensitively
@@ -205,7 +212,13 @@ pub fn test(reg: &Reg, case: &Case, stats: Option<&mut Stats>) -> Verdict {
         }
         let s = summary(&out);
         if s != base_sum {
-            let what = if s.0 != base_sum.0 { "value-differs" } else { "reports-differ" };
+            let what = if s.0 != base_sum.0 {
+                "value-differs"
+            } else if s.1 != base_sum.1 {
+                "reports-differ"
+            } else {
+                "reports-held-by-returned-error-differ"
+            };
             return Verdict::Violation(
                 format!("C15|{what}|{}", e.ty.ctor()),
                 json!({"what": format!("permuting object members changed the outcome ({what})"),
@@ -246,7 +259,7 @@ pub fn run(tier: Tier) -> i32 {
         "C15",
         tier,
         "cases = (type containing objects, payload without duplicate or post-parse-colliding keys) through the order-preserving source OV; every permutation of each object with 2..4 members \
-         (one object at a time, up to 6 objects) plus 3 random global permutations; oracle (metamorphic): result value identical and multiset of (location, report) identical under all-Continue; \
+         (one object at a time, up to 6 objects) plus 3 random global permutations; oracle (metamorphic): result value identical, multiset of (location, report) received by the error type identical under all-Continue, and the multiset held by the returned error identical; \
          non-trivial = some permuted object exists and the payload is faulty / has injected faults / the target is a tagged enum; distinct by (type, payload)",
         (400_000, 6_000_000),
         reg,
